@@ -322,6 +322,11 @@ endmodule
     try: svsim.Inst(svsim.Design(bad), "A")
     except Exception as ex: assert why in str(ex), ex
     else: raise AssertionError("accepted: " + bad)
+  # signedness: a size cast passes the signedness of $signed through, so a comparison of two such casts is signed
+  dsg = svsim.Design("module S ( input logic [0:0] clk, input logic [7:0] a, input logic [7:0] b, output logic [0:0] lt, output logic [0:0] ltu, output logic [0:0] ge );\n"
+                     " always_comb begin : cmp\n lt = 16'($signed(a)) < 16'($signed(b));\n ltu = { 16'($signed(a)) } < { 16'($signed(b)) };\n ge = 12'($signed(a)) >= 12'd2048;\n end\nendmodule")
+  isg = svsim.Inst(dsg, "S"); isg.set_port("a", 0x80); isg.set_port("b", 1); isg.tick()
+  assert (isg.get_port("lt"), isg.get_port("ltu"), isg.get_port("ge")) == (1, 0, 1), (isg.get_port("lt"), isg.get_port("ltu"), isg.get_port("ge"))
   multi, drv = svsim.drivers(svsim.Design("module A ( input logic [0:0] clk, input logic [1:0] i, output logic [1:0] o );\n assign o = i;\n assign o[0] = i[1];\nendmodule"), "A")
   assert multi and multi[0][0][0] == "o"
 
